@@ -38,6 +38,19 @@ func execJudge(c Case) *ev.Result {
 // enumerateSingle runs prog under the default schedule, then under every single forced preemption
 // of its concurrent phase. It returns the number of runs and stops at the first failure.
 func enumerateSingle(t *testing.T, prop, part string, prog Case, shard, nshards int, counter *int) bool {
+	// which client the default schedule runs first matters for what one preemption can reach:
+	// enumerate every rotation of the client list
+	for rot := 0; rot < len(prog.Clients); rot++ {
+		p := prog
+		p.Clients = append(append([][]COp(nil), prog.Clients[rot:]...), prog.Clients[:rot]...)
+		if !enumerateSingle1(t, prop, part, p, shard, nshards, counter) {
+			return false
+		}
+	}
+	return true
+}
+
+func enumerateSingle1(t *testing.T, prop, part string, prog Case, shard, nshards int, counter *int) bool {
 	var cands []int
 	CountCands = &cands
 	base := prog
